@@ -1445,7 +1445,14 @@ func (i SmallInt) ModuloBigInt(other *BigInt) (Value, Value) {
 		return (i % oSmall).ToValue(), Undefined
 	}
 
-	return i.ToValue(), Undefined
+	if i != MinSmallInt {
+		// |i| < |other|
+		return i.ToValue(), Undefined
+	}
+	// |MinSmallInt| == 2**63, the smallest big magnitude
+	iBigInt := big.NewInt(int64(i))
+	iBigInt.Rem(iBigInt, other.ToGoBigInt())
+	return ToElkBigInt(iBigInt).Normalize(), Undefined
 }
 
 func (i SmallInt) ModuloBigFloat(other *BigFloat) *BigFloat {
